@@ -59,6 +59,12 @@ class Seq(list):
     def Count(self):
         return len(self)
 
+    def Aggregate(self, init, f):
+        acc = init
+        for x in self:
+            acc = f(acc, x)
+        return acc
+
     def First(self):
         return self[0]
 
@@ -181,6 +187,16 @@ class Case:
 LEGAL_TYPES = (str, int, float, bool, complex, bytes, types.ModuleType)   # the property's "transportable as a literal"
 
 
+def _has_cell(v, depth=0) -> bool:
+    if isinstance(v, types.CellType):
+        return True
+    if depth < 4 and isinstance(v, (list, tuple, set, frozenset)):
+        return any(_has_cell(x, depth + 1) for x in v)
+    if depth < 4 and isinstance(v, dict):
+        return any(_has_cell(k, depth + 1) or _has_cell(x, depth + 1) for k, x in v.items())
+    return False
+
+
 class Recorder:
     def __init__(self, data, case=None, mod=None):
         self.data = data
@@ -188,6 +204,7 @@ class Recorder:
         self.mod = mod
         self.mi = None
         self.mi_error = None
+        self.unreported = []
         self.status = None
         self.tree = None
         self.gate = None
@@ -206,7 +223,11 @@ class Recorder:
         self.expected = []
         for d in self.data:
             try:
-                self.expected.append(("ok", f(d)))
+                val = f(d)
+                # CPython 3.12.1 (inlined comprehensions, PEP 709) can hand back an empty closure *cell* instead of
+                # a value when a name is both a comprehension target and a free variable: python itself is wrong
+                # there, nothing to compare with
+                self.expected.append(("exc", "CPython-cell-leak") if _has_cell(val) else ("ok", val))
             except Exception as ex:  # noqa
                 self.expected.append(("exc", type(ex).__name__))
         # the snapshot handed to the model is taken now, before the implementation runs and before any rebinding
@@ -357,9 +378,19 @@ def model_input(case: Case, rec: Recorder, mod) -> Optional[Tuple[str, str]]:
         if v.scope.startswith("l") and v.name in names:
             if v.name not in best or v.scope > best[v.name].scope:
                 best[v.name] = v
+    # Which enclosing-function names CPython reports as closure cells of the callable is the declared input of the
+    # model (inspect.getclosurevars); the values are the generator's.  (CPython 3.12.1 drops a cell when the same
+    # name is also the target of an inlined comprehension in the lambda - python itself then raises NameError.)
+    import inspect
+    reported = inspect.getclosurevars(rec.f).nonlocals if rec.f is not None else {}
     for n, v in sorted(best.items()):
         if n not in rec.locals:
             continue
+        if n not in reported:
+            rec.unreported.append(n)
+            continue
+        if reported[n] is not rec.locals[n] and reported[n] != rec.locals[n]:
+            raise RuntimeError("closure cell %s holds %r, the generator expected %r" % (n, reported[n], rec.locals[n]))
         cv = capval_sx(v, rec.locals[n])
         if cv is None:
             return None
@@ -540,6 +571,8 @@ def check_case(ctx, prop: str, case: Case, data, pending: list, extra_oracle=Non
         else:
             ctx.fail("failing-input", "%s: `%s` -> %s" % (prop, case.lam, why), w, key=case.key())
     mi = rec.mi
+    if rec.unreported:
+        ctx.count("model", "closure-cell-not-reported-by-inspect(bound-only or CPython quirk)")
     if rec.mi_error:
         ctx.count("model", "input-construction-failed:" + rec.mi_error)
         return
